@@ -64,11 +64,28 @@ func c04(p *core.Prog, r *core.Report) {
 	r.Rule("C04-R6", "E4 lock order", 1, "lock-order graph acyclic")
 
 	locks := p.ComputeLocks()
+	guardedAccesses(p, r, locks, "C04-R1", nil)
+	c04ReadLockMutation(p, r, locks)
+	c04IDs(p, r, locks)
+	c04Goroutines(p, r)
+	c03LockOrder(p, r, "C04-R6")
+	r.Rule("C04-R7", "E6 census/paths", 3, "pooled per-call objects are reset when taken from the pool")
+	c04Pools(p, r)
+}
+
+// guardedAccesses: every access of a field of the guarded table happens with
+// its mutex held (read mode for reads, write mode for writes), on an object
+// under construction, or is a reviewed write-once-before-go field. keep (when
+// not nil) selects the table entries a property cares about.
+func guardedAccesses(p *core.Prog, r *core.Report, locks *core.Locks, rule string, keep func(typ, field string, fld *types.Var) bool) {
 	nth := map[string]int{}
 	for _, e := range guardedTable {
 		fld := mustField(p, r, e.pkg, e.typ, e.field...)
 		mu := mustField(p, r, e.pkg, e.typ, e.mutex...)
 		if fld == nil || mu == nil {
+			continue
+		}
+		if keep != nil && !keep(e.typ, strings.Join(e.field, "."), fld) {
 			continue
 		}
 		name := e.typ + "." + strings.Join(e.field, ".")
@@ -88,24 +105,18 @@ func c04(p *core.Prog, r *core.Report) {
 			pos := p.Pos(a.Instr.Pos())
 			switch {
 			case a.Fresh:
-				r.OkTrivial("C04-R1", fn, construct, pos, "object under construction (not yet published)")
+				r.OkTrivial(rule, fn, construct, pos, "object under construction (not yet published)")
 			case a.Held[mu] >= need:
-				r.Ok("C04-R1", fn, construct, pos, "mutex "+core.LockName(mu)+" held")
+				r.Ok(rule, fn, construct, pos, "mutex "+core.LockName(mu)+" held")
 			default:
 				if ok, why := writtenOnceBeforeGo(p, locks, fld, mu, a); ok {
-					r.Ok("C04-R1", fn, construct, pos, why)
+					r.Ok(rule, fn, construct, pos, why)
 					continue
 				}
-				r.Fail("C04-R1", fn, construct, pos, fmt.Sprintf("%s of %s without %s (held: %s)", kind, name, core.LockName(mu), a.Held))
+				r.Fail(rule, fn, construct, pos, fmt.Sprintf("%s of %s without %s (held: %s)", kind, name, core.LockName(mu), a.Held))
 			}
 		}
 	}
-	c04ReadLockMutation(p, r, locks)
-	c04IDs(p, r, locks)
-	c04Goroutines(p, r)
-	c03LockOrder(p, r, "C04-R6")
-	r.Rule("C04-R7", "E6 census/paths", 3, "pooled per-call objects are reset when taken from the pool")
-	c04Pools(p, r)
 }
 
 // writtenOnceBeforeGo: the field has a single non-constructor store, under the
@@ -690,6 +701,108 @@ func c04Pools(p *core.Prog, r *core.Report) {
 	}
 	if n < 3 {
 		r.Errorf("pool census found %d typed sync.Pool.Get sites (expected at least 3)", n)
+	}
+	noUseAfterPut(p, r, "C04-R7", "")
+}
+
+// noUseAfterPut: an object handed back to a sync.Pool belongs to whoever takes
+// it next. After a (non-deferred) Put no instruction of the function may use
+// the object or a view of its storage (a slice, a field or element address
+// derived from it), unless the path passes the point where the variable is
+// bound to a fresh Get again. pkgSuffix restricts the census to one package.
+func noUseAfterPut(p *core.Prog, r *core.Report, rule, pkgSuffix string) {
+	n := 0
+	for _, f := range p.SrcFuncs {
+		if !strings.HasPrefix(pkgOf(f), core.Root) || strings.Contains(pkgOf(f), "/examples") || strings.Contains(pkgOf(f), "/benchmark") || strings.Contains(pkgOf(f), "thrift-gen") || strings.Contains(pkgOf(f), "gen-go") {
+			continue
+		}
+		if pkgSuffix != "" && !strings.HasSuffix(pkgOf(f), pkgSuffix) {
+			continue
+		}
+		f := f
+		core.EachInstr(f, func(i ssa.Instruction) {
+			c, ok := core.IsCall(i, "sync.Pool.Put")
+			if !ok {
+				return
+			}
+			n++
+			if _, isDefer := i.(*ssa.Defer); isDefer {
+				r.Ok(rule, fname(f), "no use after Put", p.Pos(i.Pos()), "the Put is deferred: it runs after everything else in the function")
+				return
+			}
+			args := core.CallArgs(c)
+			obj := args[len(args)-1]
+			for {
+				if mi, isMI := obj.(*ssa.MakeInterface); isMI {
+					obj = mi.X
+					continue
+				}
+				if ct, isCT := obj.(*ssa.ChangeType); isCT {
+					obj = ct.X
+					continue
+				}
+				break
+			}
+			// the object and every view of its storage
+			views := map[ssa.Value]bool{obj: true}
+			var grow func(v ssa.Value)
+			grow = func(v ssa.Value) {
+				refs := v.Referrers()
+				if refs == nil {
+					return
+				}
+				for _, ref := range *refs {
+					switch x := ref.(type) {
+					case *ssa.Slice:
+						if x.X == v && !views[x] {
+							views[x] = true
+							grow(x)
+						}
+					case *ssa.FieldAddr:
+						if !views[x] {
+							views[x] = true
+							grow(x)
+						}
+					case *ssa.IndexAddr:
+						if x.X == v && !views[x] {
+							views[x] = true
+							grow(x)
+						}
+					case *ssa.ChangeType:
+						if !views[x] {
+							views[x] = true
+							grow(x)
+						}
+					}
+				}
+			}
+			grow(obj)
+			def, _ := obj.(ssa.Instruction)
+			isUse := func(j ssa.Instruction) bool {
+				if j == i {
+					return false
+				}
+				if _, isDbg := j.(*ssa.DebugRef); isDbg {
+					return false
+				}
+				for _, op := range j.Operands(nil) {
+					if *op != nil && views[*op] {
+						return true
+					}
+				}
+				return false
+			}
+			rebinds := func(j ssa.Instruction) bool { return def != nil && j == def }
+			res := core.ReachAvoiding(f, i, isUse, rebinds, nil)
+			if res.Found {
+				r.Fail(rule, fname(f), "no use after Put", p.Pos(i.Pos()), "the object (or a slice / field of it) is still used at "+p.Pos(res.Exit.Pos())+" after it was returned to the pool: another goroutine may already own and overwrite it")
+			} else {
+				r.Ok(rule, fname(f), "no use after Put", p.Pos(i.Pos()), "nothing reachable after the Put touches the object or a view of it")
+			}
+		})
+	}
+	if n == 0 {
+		r.Errorf("no sync.Pool.Put site found for %s (package filter %q)", rule, pkgSuffix)
 	}
 }
 
